@@ -24,6 +24,8 @@ def classify(res, scs, reps, mons):
         for e in sc['events']:
             if e['p'] == 'api.publish_after_close.ret' and e['k'][0] == 'true':
                 res.violations.append(dict(signature='C07/publish-after-close-succeeds', what='Publish after Close returned nil', case=case()))
+            if e['p'] == 'api.publish_after_close_empty.ret' and e['k'][0] == 'true':
+                res.violations.append(dict(signature='C07/publish-after-close-succeeds', what='Publish without messages after Close returned nil', case=case()))
             if e['p'] == 'api.subscribe_after_close.ret' and e['k'][0] == 'true':
                 res.violations.append(dict(signature='C07/subscribe-after-close-succeeds', what='Subscribe after Close returned a channel', case=case()))
             if e['p'] == 'api.close.ret' and e['k'][1] != 'true':
